@@ -173,6 +173,14 @@ static void kdf_all(long which)
             ref_blake2b(o2, sl, NULL, 0, key, 32, salt, pers);
             CMP("kdf_derive/len=%zu/id=%" PRIu64 "/pat=%s", o1, o2, sl, sl, IDS[i], vf_patname[p]);
         }
+        /* binary contexts: the 8 context bytes are data, not a C string - a zero byte at every position (and pairs of them) followed by non-zero bytes */
+        { int z1, z2; for (z1 = 0; z1 < 8; z1++) for (z2 = z1; z2 < 8; z2++) for (i = 0; i < 3; i++) {
+            char ctx[8]; int j; vf_pat(key, 32, PAT_R1, 91); for (j = 0; j < 8; j++) ctx[j] = (char) (0x61 + j); ctx[z1] = 0; ctx[z2] = 0;
+            memset(salt, 0, 16); memset(pers, 0, 16); for (j = 0; j < 8; j++) salt[j] = (unsigned char) (IDS[i] >> (8 * j)); memcpy(pers, ctx, 8);
+            if (crypto_kdf_derive_from_key(o1, 32 + z1, IDS[i], ctx, key) != 0) vf_fail("kdf_derive/ret", "in-range request failed");
+            ref_blake2b(o2, 32 + z1, NULL, 0, key, 32, salt, pers);
+            CMP("kdf_derive/binary-context/zero-at=%d,%d/id=%" PRIu64 "/len=%d", o1, o2, 32 + z1, z1, z2, IDS[i], 32 + z1);
+        } }
         return;
     }
     if (which <= 6) {                                  /* hkdf extract: salt length x ikm length, one pattern per worker item */
